@@ -1,7 +1,11 @@
 // Package g holds constructs for the GD / ABSORB rules.
 package g
 
-import "github.com/unixpickle/model3d/model3d"
+import (
+	"math"
+
+	"github.com/unixpickle/model3d/model3d"
+)
 
 // want:ABSORB sequential update reads the overwritten minimum.
 func BoundsBad(min, max model3d.Coord3D) (model3d.Coord3D, model3d.Coord3D) {
@@ -54,4 +58,77 @@ func (d *drop) Max() model3d.Coord3D {
 // clean:FIELDCANON
 func (d *drop) Min() model3d.Coord3D {
 	return d.Center.Sub(d.Direction.Normalize().Scale(d.Radius))
+}
+
+type flip struct{ F float64 }
+
+// want:SIGNMAP a negative factor swaps the corners.
+func (f *flip) ApplyBounds(min, max model3d.Coord3D) (model3d.Coord3D, model3d.Coord3D) {
+	return min.Scale(f.F), max.Scale(f.F)
+}
+
+// want:SIGNMAP a negative factor yields a negative length.
+func (f *flip) ApplyDistance(d float64) float64 {
+	return d * f.F
+}
+
+type flipOK struct{ F float64 }
+
+// clean:SIGNMAP
+func (f *flipOK) ApplyBounds(min, max model3d.Coord3D) (model3d.Coord3D, model3d.Coord3D) {
+	min, max = min.Scale(f.F), max.Scale(f.F)
+	return min.Min(max), max.Max(min)
+}
+
+// clean:SIGNMAP
+func (f *flipOK) ApplyDistance(d float64) float64 {
+	if f.F < 0 {
+		return d * -f.F
+	}
+	return d * math.Abs(f.F)
+}
+
+type warp struct {
+	model3d.Solid
+	S float64
+}
+
+// want:GD.WARP the inner solid is asked about a scaled point under its own box.
+func (w *warp) Contains(c model3d.Coord3D) bool {
+	return w.Solid.Contains(c.Scale(w.S))
+}
+
+type warpOK struct {
+	model3d.Solid
+	S float64
+}
+
+// clean:GD.WARP
+func (w *warpOK) Contains(c model3d.Coord3D) bool {
+	if !model3d.InBounds(w, c) {
+		return false
+	}
+	return w.Solid.Contains(c.Scale(w.S))
+}
+
+type passThrough struct {
+	model3d.Solid
+	N int
+}
+
+// silent:GD.WARP same point, same box.
+func (w *passThrough) Contains(c model3d.Coord3D) bool {
+	w.N++
+	return w.Solid.Contains(c)
+}
+
+type flipPhi struct{ F float64 }
+
+// clean:SIGNMAP
+func (f *flipPhi) ApplyDistance(d float64) float64 {
+	s := f.F
+	if s < 0 {
+		s = -s
+	}
+	return d * s
 }
